@@ -32,14 +32,15 @@ def _p(claim, props=None, level="other", streams=None):
 
 
 PROPS = {
-    "C01": _p("Proof (partial), about the election model and the graph-level rules of Spec/ElectionRules.lean: (a) C01_election_order_independent - for one valid "
+    "C01": _p("Proof (partial), about the election model and the graph-level rules of Spec/ElectionRules.lean. (a) C01_election_order_independent / C01_election_same_result: for one valid "
               "history with accepted frames and forkers below one third, two runs of the election model for the same frame (different forkless-cause oracles, root tables "
-              "and feeding orders, each oracle answering the graph forkless cause, each table listing the graph's roots, each feed closed = every root fed after the "
-              "previous-frame roots it forkless-causes) that both return an Atropos return the same frame and Atropos (from L2, L4, uniqueness of the Atropos and the "
-              "single-election refinement of C10). (b) C01_order_independent_partial - two instances' (frame, Atropos) sequences of equal length are identical, under explicit "
-              "named hypotheses that are NOT proved: OraclesAgree (C05: index = graph forkless cause in any indexing order; C33+C04: root table = graph roots; canonical "
-              "validator set), FramesAccepted (C04), BlocksFromElections (L5: every emitted block is the result of one election run from reset), FramesConsecutive (C02), "
-              "equal number of blocks. Not proved: that both instances decide the same number of frames, 'accept every event' (L6), cheater lists (C03/C06), epoch transitions, L5. "
+              "and feeding orders; each oracle answers the graph forkless cause, each table lists the graph's roots, each feed is closed = every root fed after the "
+              "previous-frame roots it forkless-causes, e.g. any parents-first or frame-ascending order) return the same Atropos; and if one feed makes the election return an Atropos, every closed "
+              "feed containing the same later-frame roots returns it too (neither nothing nor an error). From L2, L4, uniqueness of the Atropos and the single-election refinement of C10 and its converse. "
+              "(b) C01_order_independent_partial: the (frame, Atropos) sequences of two instances are identical (same length, same entries) under explicit named hypotheses that are NOT proved: "
+              "OraclesAgree (C05: index = graph forkless cause in any indexing order; C33+C04: root table = graph roots; canonical validator set), FramesAccepted (C04), "
+              "BlocksFromElections and OpenElection (L5: every emitted block is the result of one election run from reset; the election open at the end has been fed every later root and returned nothing - "
+              "this also assumes away the all-decided-no error, i.e. L6), FramesConsecutive (C02). Not proved: L5, L6 / 'accept every event', cheater lists (C03/C06), epoch transitions. "
               "Correspondence: every instance's accept/reject decisions, blocks, cheaters and epoch transitions are compared with the graph-level reference, which is "
               "order-free by construction; instances process the same events in different random parents-first orders.",
               props=["LachesisVerif.Props.C01"], level="proof"),
@@ -103,12 +104,13 @@ PROPS = {
     "C10": _p("Proof (partial). On the election model (regenerated kernels): Atropos choice rule, vote rule (tie = yes, decision on quorum), round arithmetic; invariants of any run of "
               "processRoot from reset (yes-votes name a root of the frame to decide in the subject's slot, decisions only in rounds >= 2 and once per subject, returned frame = frameToDecide). "
               "On the graph-level rules (Spec/ElectionRules.lean: forkless cause = FCSpec of C05, roots, frame rule, votes by recursion on the round, decisions, Atropos, BFT): L1 (two quorums share a "
-              "never-forking validator), L2 (under Valid, accepted frames and forkers < 1/3, two different roots of one slot are never both forkless-caused), L4 (a decision fixes all later votes and "
-              "excludes the opposite decision), uniqueness of the Atropos. Tie (C10_single_election_partial / _BFT): one election of the model fed roots in any closed order (e.g. frame-ascending) with "
-              "observe = graph forkless cause and frameRoots = the roots by frame stores exactly the votes and decisions of the rules, never reaches two-fork-roots / missing-vote / not-enough-votes, "
-              "reports all-no only if the rules decide every validator no, and a returned Atropos is the Atropos of the rules (slot uniqueness discharged from BFT by L2). "
-              "Not proved: L3, L5 (lifting from one election to whole Orderer runs and epochs: 'model blocks = reference blocks'), L6, the converse of the refinement (the model returns an Atropos as "
-              "soon as the rules determine one), equivalence of the executable reference Spec/Lachesis.lean with the Prop-level rules. "
+              "never-forking validator), L2 (under Valid, accepted frames and forkers < 1/3, two different roots of one slot are never both forkless-caused), L3 (votes and decisions of old events do not "
+              "change when the history grows), L4 (a decision fixes all later votes and excludes the opposite decision), uniqueness of the Atropos. Tie (C10_single_election_partial / _BFT / _complete / "
+              "_same_result): one election of the model fed roots in any closed order (e.g. frame-ascending) with observe = graph forkless cause and frameRoots = the roots by frame stores exactly the "
+              "votes and decisions of the rules, never reaches two-fork-roots / missing-vote / not-enough-votes, reports all-no only if the rules decide every validator no, a returned Atropos is the "
+              "Atropos of the rules (slot uniqueness discharged from BFT by L2); conversely every decision the rules derive from a fed root is stored, and any closed feed containing the same roots "
+              "returns the same Atropos. Not proved: L5 (lifting from one election to whole Orderer runs and epochs: 'model blocks = reference blocks'), L6, equivalence of the executable reference "
+              "Spec/Lachesis.lean with the Prop-level rules. "
               "Correspondence (three-way): accepted frames and emitted blocks of the real code equal those of the independent reference implementation on every generated "
               "event set (forks below one third).", props=["LachesisVerif.Props.C10"], level="proof"),
     "C33": _p("Proof: for every history of addRoot/GetFrameRoots/epoch switches and EVERY cache eviction policy, GetFrameRoots f returns exactly "
